@@ -33,7 +33,9 @@ AllowAbsent == [kind |-> "absent", names |-> {}]
 AllowEmpty  == [kind |-> "empty", names |-> {}]
 AllowList(s) == [kind |-> "list", names |-> s]
 
-JwsSer == {"compact", "flattened", "general", "7797compact", "7797json", "jwt"}
+\* "7797compact"/"7797json": the RFC 7797 entry points with "b64": false; "..._plain" / "..._true": the same entry points given
+\* an ordinary token (no b64 member) or "b64": true - they hand over to the RFC 7515 code and must carry the caller's list along
+JwsSer == {"compact", "flattened", "general", "7797compact", "7797json", "jwt", "7797compact_plain", "7797json_plain", "7797compact_true"}
 JweSer == {"compact", "flattened", "general", "jwt"}
 
 \* ------------------------------------------------------------------ layer D
